@@ -33,6 +33,16 @@ package pflag
 //@   modifies *
 //@   at call s.Flags.Visit(:
 //@     assert C12_C18_only_flags_given_on_the_command_line_are_visited: true
+//@ func pflag.newSet(cfg, template, fs, parseFunc) (s, err)
+//@   props C12
+//@   flag noframe
+//@   flag panics_ok
+//@   flag only_at
+//@   flag vacuity off
+//@   modifies *
+//@   at call s.registerFlags(:
+//@     assert C12_flags_are_named_with_the_callers_name_config_as_given: arg0.NameCfg == cfg
+
 //@ func pflag.(*Set).registerFlags(s, tmpl, ptyp) (err)
 //@   props C12 C14
 //@   flag noframe
